@@ -222,6 +222,22 @@ class ShapeAnalysis:
                             env2[el.id] = self._unpack(g.iter, env2, i, -len(g.target.elts))
             self._eval(e.elt, env2)
             return UNKNOWN
+        if isinstance(e, ast.DictComp):
+            # {k: v for t in it}: the same as the loop `d[k] = v` over `it`: a mapping whose values have the kind of v
+            env2 = dict(env)
+            for g in e.generators:
+                elem = self._loop_elem(g.iter, env2)
+                if isinstance(g.target, ast.Name):
+                    env2[g.target.id] = elem
+                elif isinstance(g.target, (ast.Tuple, ast.List)):
+                    for i, el in enumerate(g.target.elts):
+                        if isinstance(el, ast.Name):
+                            env2[el.id] = self._unpack(g.iter, env2, i, -len(g.target.elts))
+                for cond in g.ifs:
+                    self._eval(cond, env2)
+            self._eval(e.key, env2)
+            v = single(self._eval(e.value, env2))
+            return one(("dict", v if v is not None else ("unknown",)))
         if isinstance(e, (ast.List, ast.Set)):
             for x in e.elts:
                 self._eval(x.value if isinstance(x, ast.Starred) else x, env)
